@@ -16,8 +16,6 @@ pub mod sylt_parser {
     use super::common::*;
     type Alias = Identifier;
 //@ include common/parser_ast.tpl
-//@ type sylt-parser/src/parser.rs struct Module eq=none
-//@ type sylt-parser/src/parser.rs struct AST eq=none
     pub mod expression { pub use super::{CaseBranch, IfBranch, ComparisonKind}; }
 }
 
@@ -833,14 +831,6 @@ impl Resolver {
 
 // ---- the entry point of the phase: every module statement goes through Resolver::statement at the top
 // level (empty scope stack), and what comes out is what TypeChecker::solve requires (os_ok) ------------
-/// a top-level parser statement: what sylt_parser's outer_statement can return
-pub open spec fn top_kind(s: ParserStatement) -> bool {
-    s.kind is Blob || s.kind is Enum || s.kind is Definition || s.kind is ExternalDefinition
-        || s.kind is Use || s.kind is FromUse || s.kind is EmptyStatement
-}
-pub open spec fn module_ok(m: sylt_parser::Module) -> bool {
-    forall|j: int| 0 <= j < m.statements@.len() ==> sylt_parser::ps_shape(#[trigger] m.statements@[j]) && top_kind(m.statements@[j])
-}
 /// os_ok for every table size from n on (the variable table only grows while the modules are resolved)
 pub open spec fn os_up(s: Statement, n: int) -> bool { forall|m: int| m >= n ==> #[trigger] os_ok(s, m) }
 pub open spec fn all_os_up(ss: Seq<Statement>, n: int) -> bool { forall|k: int| 0 <= k < ss.len() ==> os_up(#[trigger] ss[k], n) }
@@ -867,7 +857,7 @@ proof fn lemma_os_up_intro(s: Statement, n: int)
 //@   ret r
 //@   spec
     requires
-        forall|i: int| 0 <= i < tree.modules@.len() ==> module_ok((#[trigger] tree.modules@[i]).1), //# C07 resolve.pre.every_module_statement_is_a_top_level_statement_with_parser_shape
+        sylt_parser::modules_ok(tree.modules@), //# C07 resolve.pre.every_module_statement_is_a_top_level_statement_with_parser_shape
     ensures
         r is Ok ==> forall|k: int| 0 <= k < r->Ok_0.1@.len() ==> os_ok(#[trigger] r->Ok_0.1@[k], r->Ok_0.0@.len() as int), //# C07 resolve.output_is_what_the_type_checker_requires_of_top_level_statements
         r is Err ==> r->Err_0.len() >= 1, //# C07 resolve.an_error_result_is_never_an_empty_list
@@ -890,7 +880,7 @@ proof fn lemma_os_up_intro(s: Statement, n: int)
 //@| for stmt in module.statements.iter()
             invariant resolver.inv(), resolver.stack@.len() == 0, //# C07,C09 resolve.loop4.every_top_level_statement_starts_with_an_empty_scope_stack
                 all_os_up(out@, resolver.variables@.len() as int), //# C07 resolve.loop4.statements_so_far_are_what_the_type_checker_requires
-                module_ok(*module), its.seq().len() == module.statements@.len(), forall|k: int| 0 <= k < module.statements@.len() ==> *(#[trigger] its.seq()[k]) == module.statements@[k], //# - resolve.loop4.aux
+                sylt_parser::module_ok(*module), its.seq().len() == module.statements@.len(), forall|k: int| 0 <= k < module.statements@.len() ==> *(#[trigger] its.seq()[k]) == module.statements@[k], //# - resolve.loop4.aux
 //@   endloop
 //@   ghost before
 //@| if let Some(resolved) = resolver.statement(&stmt)? {
